@@ -51,3 +51,14 @@ Print Assumptions C20_keys_unique.
 Theorem C20_no_calls_before : st_calls st0 = [].
 Proof. reflexivity. Qed.
 Print Assumptions C20_no_calls_before.
+
+(* Every selected field of every object value is resolved at most once: in a completed request
+   (whatever the resolvers return -- values, errors, panics, deferred values at any depth -- and
+   whether or not the data was nulled) no two resolver invocations have the same response path.
+   Together with C20_call_record (the invocation for key k of the object at p has path p ++ [k]),
+   this is "once per response key per object value". *)
+From GQL Require Import Proofs.ExecPaths.
+Theorem C20_resolved_at_most_once : forall fuel S D opn inputs root or tor data s,
+  request fuel S D opn inputs root or tor = RDone data s -> NoDup (map c_path (st_calls s)).
+Proof. exact request_calls_nodup. Qed.
+Print Assumptions C20_resolved_at_most_once.
